@@ -91,7 +91,7 @@ EXEMPT = {
 
 
 def run(ctx):
-    from ..rules import scopeapi, crash2, sC43, dD6, sC11, s7C43
+    from ..rules import scopeapi, crash2, sC43, dD6, sC11, s7C43, dD8
     return [crash.rule_L1(ctx), crash.rule_L2(ctx), crash.rule_L3(ctx), crash.rule_L4(ctx), crash.rule_L5(ctx), crash.rule_L7(ctx),
             iface.rule_I1(ctx), iface.rule_I2(ctx), tree.rule_V1_visit(ctx), tree.rule_V2(ctx), handlers.rule_arg_guards(ctx),
             gen2.rule_G2(ctx), gen.rule_G4(ctx), C09.rule_leading_zero(ctx), scopeapi.rule_L8(ctx), crash2.rule_L9(ctx), crash2.rule_L10(ctx),
@@ -100,6 +100,8 @@ def run(ctx):
             sC43.rule_NONEORD(ctx),     # found PyrexScanner.close_bracket_action comparing a None nesting level (repaired: 921d6e3cf)
             sC11.rule_cut(ctx),         # the cut decision of split_string_literal (rule of C11): a `""` separator inside an escape leaves an unterminated C literal (seed C43i)
             s7C43.rule_ITEMSEQ(ctx),
+            dD8.rule_BITWIDTH(ctx), dD8.rule_CFLOAT(ctx), dD8.rule_INTLIMIT(ctx), dD8.rule_DOCTYPE(ctx),     # round 7 (rules/dD8.py), armed after the repairs 413d857dd, 0aef96ca8, 83d376d1d, ebf661440
+            dD8.rule_NESTDEPTH(ctx),    # known finding K20 (parser recursion depth)
             dD6.rule_DEFERRED(ctx),     # found PostParse.visit_ErrorNode returning None / match handlers validating before visiting (repaired: efc8b7b65)
             # dD6.rule_TOKERR (tokenizer errors discarded by tentatively_scan: `with ('abc<newline>): pass` compiles silently) is NOT registered: accepting an invalid
             # text without a message is outside the property as stated (it demands no crash, and acceptance of what CPython accepts); see SIDE_FINDINGS.md
